@@ -712,12 +712,12 @@ class BoundsAnalysis:
                 if not safe:
                     if op == 'Sub':
                         self.tainted.add(x)                    # an index built from it may be a wrapped value
-                    if not checked:
-                        # keep only the direction that survives wrapping
-                        if op == 'Sub':
-                            z.e = {k: c for k, c in z.e.items() if k[1] != x}      # drop upper bounds of x
-                        else:
-                            z.e = {k: c for k, c in z.e.items() if k[0] != x}      # drop lower bounds of x
+                    if not checked and op == 'Sub':
+                        # an underflowed `a - c` wraps to a huge value: its upper bounds are gone
+                        z.e = {k: c for k, c in z.e.items() if k[1] != x}
+                    # an unchecked `a + c` with a small constant is kept exact: wrapping it needs 2^32 (2^64) increments, i.e. an
+                    # input of more than 4 GiB — the input-size assumption DECODER-TOTAL states; overflow-checked builds panic there
+                    # instead, which the arithmetic rules (not the index rule) look at
                 return
             if A[0] == Z and op == 'Add':
                 self.set_var(z, x, (B[0], B[1] + A[1]))
@@ -1621,6 +1621,8 @@ def rule_index_guarded(ctx, config='dev'):
                                     'interpretation of each body (guards, resize / growth loops, len()-derived indices, closure entry '
                                     'facts); decides the upper bound only, not the overflow of `x - 1` nor range slicing')
     r.floor = 30
+    r.assumptions.append('counters incremented by a constant per line / segment do not wrap: inputs shorter than 2^32 lines / segments '
+                         '(the input-size assumption of DECODER-TOTAL)')
     res = analyse_crate(f)
     groups = {}
     for key, sites in res.items():
